@@ -30,6 +30,16 @@ Theorem C17_hidden_in_list : forall v q r,
 Proof. exact list_spec. Qed.
 Print Assumptions C17_hidden_in_list.
 
+(** and conversely: every alive repository is listed when the query folds to TRUE or one of its visible
+    documents matches — tombstones hide nothing else *)
+Theorem C17_list_complete : forall v q r,
+  In r (v_repos v) -> r_tomb r = false ->
+  (simplify (v_repos v) q = QConst true \/
+   exists i r' d, In (i, r', d) (search v q) /\ r_name r' = r_name r) ->
+  In r (list_repos v q).
+Proof. exact list_complete. Qed.
+Print Assumptions C17_list_complete.
+
 (** success => effective, under every fault; and after a reload the repository is hidden from every query *)
 Theorem C17_success_effective : forall f id b ft f',
   set_tombstone f id b ft = (f', Ok tt) ->
